@@ -167,14 +167,22 @@ def build_single(arg, sc, cplx, line_via, int_dtype=False):
     return Line(pow2_normalise(a) * s)
 
 
-def build_coll(args_per_pos, sc, cplx, shape, int_dtype=False):
-    """stack one argument over all positions"""
+def build_coll(args_per_pos, sc, cplx, shape, int_dtype=False, mags=None):
+    """stack one argument over all positions; mags: per-position exponent e, the representative at that position is
+    multiplied by 2**e (elements of very different magnitude inside one collection; hyperplanes are brought to modulus
+    ~1 first so that the library's absolute incidence tolerance stays meaningful)"""
     kind = args_per_pos[0][0]
     s = C.cscale_value(sc) if cplx else C.scale_value(sc)
-    if kind in "PH":
+    if kind == "P":
         a = np.array([C.to_c(a[1]) for a in args_per_pos]) * s
+    elif kind == "H":
+        a = np.array([pow2_normalise(C.to_c(a[1])) if mags else C.to_c(a[1]) for a in args_per_pos]) * s
     else:
         a = np.array([pow2_normalise(C.to_c(dual_plucker(a[1], a[2]))) for a in args_per_pos]) * s
+    if mags:
+        if len(mags) != len(args_per_pos) or not all(isinstance(e, int) and 0 <= e <= 15 for e in mags):
+            raise Skip("malformed magnitudes")
+        a = a * (2.0 ** np.array(mags)).reshape((-1,) + (1,) * (a.ndim - 1))
     if not cplx:
         a = np.real(a)
     a = as_int(a.reshape(tuple(shape) + a.shape[1:]), int_dtype)
@@ -208,8 +216,11 @@ def strategy_for(kind):
             bcast = draw(st.sampled_from([None, None] + list(range(nargs)))) if shape else None
             via = draw(st.sampled_from(["func", "func", "method", "ctor"]))
             ints = [draw(st.booleans()) for _ in range(nargs)]
+            mags = None
+            if shape and npos > 1 and draw(st.booleans()):
+                mags = [draw(st.sampled_from([0, 0, 8, 15])) for _ in range(npos)]
             return {"kind": kind, "cplx": cplx, "shape": shape, "elems": elems, "coefs": coefs, "scales": scales,
-                    "bcast": bcast, "via": via, "int_dtype": ints}
+                    "bcast": bcast, "via": via, "int_dtype": ints, "mags": mags}
 
         return s()
 
@@ -262,7 +273,7 @@ def run(case):
         if shape is None or bc == k:
             objs.append(build_single(per_pos_args[0][k], case["scales"][k], cplx, None, idt))
         else:
-            objs.append(build_coll([per_pos_args[i][k] for i in range(npos)], case["scales"][k], cplx, shape, idt))
+            objs.append(build_coll([per_pos_args[i][k] for i in range(npos)], case["scales"][k], cplx, shape, idt, case.get("mags")))
     ck = Checker()
     tgt = np.array([target_array(r) for r in per_pos_res])
     naxes = tgt.ndim - 1
@@ -352,6 +363,8 @@ def labels(case):
         out.append("broadcast")
     if not case["cplx"] and any(v[-1] == 0 for el in case["elems"] for v in el):
         out.append("has-infinite")
+    if case.get("mags") and len(set(case["mags"])) > 1:
+        out.append("mixed-magnitude-collection")
     if any(case.get("int_dtype", [])) and not all(case.get("int_dtype", [])):
         out.append("mixed-dtype-requested")
     return out
@@ -435,7 +448,7 @@ LAWS = [
         labels=labels,
         budget={"quick": 220, "thorough": 6000},
         rule=f"{k}: exact span/intersection, all argument permutations, normalisation, incidence",
-        mandatory=("collection", "complex", "single"),
+        mandatory=("collection", "complex", "single") + (("mixed-magnitude-collection",) if k in ("join_pp2", "meet_ll2", "join_pp3") else ()),
     )
     for k in KINDS
 ] + [
